@@ -78,7 +78,7 @@ class C04(Prop):
     assumptions = ["primitive definitions are compared by name only (the writer may omit black boxes)",
                    "the netlist written is the one the reader produced, possibly transformed; the reader's own "
                    "faithfulness is C06's business"]
-    runs = {"quick": 2000, "thorough": 50000}
+    runs = {"quick": 6000, "thorough": 150000}
 
     def configure(self, rng, tier):
         r = rng
